@@ -190,7 +190,7 @@ def run(ctx):
         ids = [n.id for cs in hcalls for n in cfg.nodes_of(cs.node)]
         for a in ids:
             for b in ids:
-                if a != b and b in cfg.reach_strict(a):
+                if a != b and b in cfg.reach_strict(a, exc=True):
                     r.fail(do_handle, hcalls[0].node, "two handler calls on one path", "the command handler can be invoked twice on one path")
     if handled_true:
         # the handled arm returns the event's status
@@ -435,6 +435,8 @@ def run(ctx):
                "decide that the command handler runs zero times): every write to the listener store drops the sorted cache of that event on all paths")
     ctx.borrow("c17", "C17-R8", "C04-R14", "'the handler is invoked exactly once' also on the second run: a handler configured as a factory stays a factory - the getter "
                "never stores the object it created back into the configured field")
+    ctx.borrow("c20", "C20-R13", "C04-R16", "'exception paths return a status >= 1': rendering the trace of a caught exception does not itself raise for a frame whose file name is not an "
+               "absolute path - no partial path function (commonpath / relpath / stat ...) outside a handler in the trace renderer (same rule as C20-R13)")
     return ctx.results
 
 
